@@ -10,6 +10,7 @@ import (
 	"encoding/json"
 	"flag"
 	"fmt"
+	"math"
 	"os"
 	"runtime"
 	"sort"
@@ -1187,6 +1188,32 @@ func randValid(r *vh.Rand, rev int64) *Cfg {
 	return c
 }
 
+// revisions at and near the int64 limits and far apart from each other: any
+// arithmetic on them (a difference, a negation) wraps
+var extremeRevs = []int64{math.MinInt64, math.MinInt64 + 1, -(1 << 62) - 1, -1, 0, 1, 1 << 62, math.MaxInt64 - 1, math.MaxInt64}
+
+// revExtremes: every ordered pair (x, y) of extreme revisions: load x then load
+// y; base x then load y; and load 0, load x, load y.
+func revExtremes() []Case {
+	a := func(rev int64) *Cfg {
+		return &Cfg{Rev: rev, Reqs: []Req{{K: "r1", V: 2}}, Tgts: []Tgt{{K: "t1", Addrs: []string{"a:1"}, Req: "r1"}}}
+	}
+	b := func(rev int64) *Cfg {
+		return &Cfg{Rev: rev, Reqs: []Req{{K: "r1", V: 3}}, Tgts: []Tgt{{K: "t1", Addrs: []string{"a:1"}, Req: "r1"}, {K: "t2", Addrs: []string{"b:1"}, Req: "r1"}}}
+	}
+	z := func(rev int64) *Cfg { return &Cfg{Rev: rev, Reqs: []Req{{K: "r1", V: 2}}} }
+	var out []Case
+	for _, x := range extremeRevs {
+		for _, y := range extremeRevs {
+			out = append(out,
+				Case{Family: "rev-extremes", Ops: []Op{{K: "load", Cfg: a(x)}, {K: "load", Cfg: b(y)}}},
+				Case{Family: "rev-extremes", Base: a(x), Ops: []Op{{K: "load", Cfg: b(y)}}},
+				Case{Family: "rev-extremes", Ops: []Op{{K: "load", Cfg: z(0)}, {K: "load", Cfg: a(x)}, {K: "load", Cfg: b(y)}}})
+		}
+	}
+	return out
+}
+
 func revDelta(r *vh.Rand) int64 {
 	switch r.Pick(60, 12, 10, 8, 4, 3, 3) {
 	case 0:
@@ -1301,12 +1328,17 @@ func randHistory(r *vh.Rand, h *vh.Meta, mutate bool) Case {
 			carry = false
 		}
 		d := revDelta(r)
-		if w != nil {
-			nc.Rev = w.Rev + d
-			if d <= 0 {
-				carry = false
-			}
+		switch {
+		case r.Chance(1, 12):
+			// an absolute revision at or near the int64 limits
+			nc.Rev = extremeRevs[r.Intn(len(extremeRevs))]
+			h.Hist("rev:extreme")
+		case w != nil:
+			nc.Rev = w.Rev + d // may wrap once w.Rev is extreme; what counts is the comparison below
 			h.Hist(fmt.Sprintf("rev-delta:%+d", d))
+		}
+		if w != nil && nc.Rev <= w.Rev {
+			carry = false
 		}
 		c.Ops = append(c.Ops, Op{K: "load", Cfg: nc})
 		if carry {
@@ -1625,7 +1657,7 @@ func main() {
 	if f := flag.Lookup("stderrthreshold"); f != nil {
 		f.Value.Set("FATAL")
 	}
-	meta := vh.NewMeta("corpus cases; every ordered pair (A, B) of configurations over two target names x two request names (target: absent / ->r1 addr a / ->r1 addr b / ->r2 addr a; request: absent / content 1 / content 2) loaded as revisions 1 and 2 (quick: A valid; thorough: all A over a 225-configuration universe, for valid A also revisions 2-then-2 and 2-then-1, plus A as base); every ordered pair over one request name whose value is absent / nil pointer / empty message / a subscription and two targets using it or absent (256); seeded random histories of 2..7 loads evolving one configuration by 0..3 edits per load (add/remove/edit target, re-point, edit/rename/swap/add/remove request, nil request pointer, other fields), invalid variants, nil loads, revision deltas {+1,0,-1,+5,-7,+-2^40}, with and without a (valid/invalid/nil) base; in every fourth history the caller also edits the message it loaded last IN PLACE AT EVERY LEVEL OF SHARING (same map objects, request / target / credentials messages, Addresses slice, nested Subscription / Path / PathElem messages edited where they are) and then usually loads a higher revision built from the same objects (the same message, or a new configuration sharing the request and target objects) or a fresh message; 'alias-deep': 18 kinds of in-place edit x {same message, shared objects, fresh} x revision {2, 1} after a fixed first load; 'concurrent' cases: two overlapping Loads under a forced schedule (the first parked inside its first handler call while the second is issued from another goroutine and watched until it returned or sits in c.mu.Lock()), over every ordered pair of the 16-configuration nil-pointer universe as revisions (1,2) and (2,1) and over seeded random pairs (second load an edit of the first / of the base, revision above / equal / below, invalid, nil) with optional sequential loads before and after. distinct = distinct (base, operations); non-trivial = some accepted load on a non-nil current configuration that produced at least one handler call")
+	meta := vh.NewMeta("corpus cases; every ordered pair (A, B) of configurations over two target names x two request names (target: absent / ->r1 addr a / ->r1 addr b / ->r2 addr a; request: absent / content 1 / content 2) loaded as revisions 1 and 2 (quick: A valid; thorough: all A over a 225-configuration universe, for valid A also revisions 2-then-2 and 2-then-1, plus A as base); every ordered pair over one request name whose value is absent / nil pointer / empty message / a subscription and two targets using it or absent (256); seeded random histories of 2..7 loads evolving one configuration by 0..3 edits per load (add/remove/edit target, re-point, edit/rename/swap/add/remove request, nil request pointer, other fields), invalid variants, nil loads, revision deltas {+1,0,-1,+5,-7,+-2^40} and absolute revisions at the int64 limits; 'rev-extremes': every ordered pair of {MinInt64, MinInt64+1, -2^62-1, -1, 0, 1, 2^62, MaxInt64-1, MaxInt64} as load-then-load, base-then-load and after a revision-0 load (243); with and without a (valid/invalid/nil) base; in every fourth history the caller also edits the message it loaded last IN PLACE AT EVERY LEVEL OF SHARING (same map objects, request / target / credentials messages, Addresses slice, nested Subscription / Path / PathElem messages edited where they are) and then usually loads a higher revision built from the same objects (the same message, or a new configuration sharing the request and target objects) or a fresh message; 'alias-deep': 18 kinds of in-place edit x {same message, shared objects, fresh} x revision {2, 1} after a fixed first load; 'concurrent' cases: two overlapping Loads under a forced schedule (the first parked inside its first handler call while the second is issued from another goroutine and watched until it returned or sits in c.mu.Lock()), over every ordered pair of the 16-configuration nil-pointer universe as revisions (1,2) and (2,1) and over seeded random pairs (second load an edit of the first / of the base, revision above / equal / below, invalid, nil) with optional sequential loads before and after. distinct = distinct (base, operations); non-trivial = some accepted load on a non-nil current configuration that produced at least one handler call")
 	e := &emitter{dir: o.Out, cf: vh.NewCaseFile(), meta: meta, limit: 1500}
 
 	if o.Replay != "" {
@@ -1696,6 +1728,9 @@ func main() {
 		}
 	}
 	for _, c := range aliasDeep() {
+		e.add(c)
+	}
+	for _, c := range revExtremes() {
 		e.add(c)
 	}
 	// two overlapping loads: every ordered pair of the nil-pointer universe, as
